@@ -59,13 +59,21 @@ fn transform(s: &mut Stream, x: &mut Xf, node: &T, fresh: &mut usize) -> T {
                     // the normalised vector bit-identical
                     [1.0, 2.0, 0.25, 8.0][s.below(4)]
                 } else if x.exact {
-                    [1.0, 2.0, 0.5, 16.0][s.below(4)]
+                    [1.0, 2.0, 0.5, 16.0, 4.909093465297727e-91, 2.037035976334486e90][s.below(6)]
                 } else {
-                    [1.0, 3.0, 0.1, 7.5, 1e3][s.below(5)]
+                    // incl. 2^-1030 (subnormal weights) and magnitudes far from one
+                    [1.0, 3.0, 0.1, 7.5, 1e3, 8.691694759794e-311, 1e-300, 1e200][s.below(8)]
                 }
             } else {
                 1.0
             };
+            // the rescaled weights have to remain ordinary positive numbers with a finite sum
+            // (and normal ones where bit-identical normalisation is relied upon)
+            // (a product that lands among the subnormals is kept only if it is exact, e.g. 3 * 2^-1030)
+            let lo = if label.is_some() || x.exact { f64::MIN_POSITIVE * 4.0 } else { 0.0 };
+            let fits = outs.iter().all(|(w, _)| w * c > lo && w * c < 1e300 && (w * c >= 1e-290 || (w * c) / c == *w))
+                && outs.iter().map(|(w, _)| w * c).sum::<f64>() < 1e300;
+            let c = if fits { c } else { 1.0 };
             T::Chance(
                 label.as_ref().map(|l| if x.rename { format!("ch_{}", l) } else { l.clone() }),
                 outs.iter().map(|(w, t)| (w * c, transform(s, x, t, fresh))).collect(),
@@ -117,12 +125,27 @@ pub fn decode(bytes: &[u8]) -> Case {
     let built = gen_built(&mut gs, &cfg);
     let scale_base = oracle::scale_of(&built.tree);
     let exact = s.bool();
+    // scaling payoffs far away from one is only meaningful while nothing leaves the range of a
+    // double: trees whose own numbers are already extreme get moderate factors
+    let moderate_tree = {
+        let mut ok = true;
+        built.tree.walk(&mut |n| match n {
+            T::Term(p) => ok &= *p == 0.0 || (p.abs() >= 1e-9 && p.abs() <= 1e9),
+            T::Chance(_, outs) => {
+                let total: f64 = outs.iter().map(|(w, _)| *w).sum();
+                ok &= outs.iter().all(|(w, _)| w / total >= 1e-12);
+            }
+            _ => (),
+        });
+        ok && built.tree.depth() <= 12
+    };
     let scale = if s.bool() {
         1.0
     } else if exact {
-        [2.0, 0.5, 1024.0][s.below(3)]
+        // powers of two, also far from one: 2^-60, 2^-300, 2^60, 2^200
+        [2.0, 0.5, 1024.0, 8.673617379884035e-19, 4.909093465297727e-91, 1152921504606846976.0, 1.6069380442589903e60][s.below(if moderate_tree { 7 } else { 3 })]
     } else {
-        [3.0, 0.1, 1e3, 0.37][s.below(4)]
+        [3.0, 0.1, 1e3, 0.37, 1e-20, 1e15][s.below(if moderate_tree { 6 } else { 4 })]
     };
     let shift = if exact || s.bool() { 0.0 } else { scale_base * scale * [1.0, -2.5, 0.5][s.below(3)] };
     let mut xf = Xf {
@@ -133,7 +156,8 @@ pub fn decode(bytes: &[u8]) -> Case {
         rescale_chance: s.bool(),
         insert: s.bool(),
         remove: s.bool(),
-        exact: exact && shift == 0.0,
+        // "changes no rounding" presupposes that nothing is near the subnormal range
+        exact: exact && shift == 0.0 && moderate_tree,
         inserted: 0,
         removed: 0,
     };
@@ -148,6 +172,12 @@ pub fn decode(bytes: &[u8]) -> Case {
     };
     let iters = 1 + s.below(30) as u64;
     let prof = gen_profile(&mut s, &built.info);
+    // discount factors like t^-1000 push regrets to the bottom of the range of a double, where
+    // a power of two is no longer an exact factor
+    let tame = |e: f64| e.is_infinite() || e.abs() <= 5.0;
+    if !(tame(params.a) && tame(params.b) && params.g <= 8.0) {
+        xf.exact = false;
+    }
     let mut fresh = 0;
     let other = transform(&mut s, &mut xf, &built.tree, &mut fresh);
     Case {
@@ -330,6 +360,7 @@ pub fn prop() -> Prop {
         assumptions: &["a finite non-zero soft-max weight is scale dependent by definition and is excluded from the solver relation"],
         post: None,
         watchdog_s: 60,
+        hang_is_violation: false,
         shrink_iters: 2000,
     }
 }
